@@ -1,0 +1,23 @@
+// +build verif
+
+// Accessor for the external verification harness (/verif).  Compiled only with
+// -tags verif; nothing here changes the behaviour of existing code.
+
+package core
+
+import (
+	"runtime"
+	"sync/atomic"
+)
+
+// VerifWaitIndexersActive returns once the event loops of the chain's two
+// indexers have started.  ChainIndexer.Close tears the event loop down only if
+// it has already marked itself active; a harness that opens and stops
+// thousands of chains per second would otherwise leave one goroutine (and the
+// whole chain object it references) behind for every chain stopped before its
+// freshly spawned event loop was first scheduled.
+func (bc *BlockChain) VerifWaitIndexersActive() {
+	for atomic.LoadUint32(&bc.chtIndexer.active) == 0 || atomic.LoadUint32(&bc.bltIndexer.active) == 0 {
+		runtime.Gosched()
+	}
+}
